@@ -22,12 +22,16 @@ RECURSIVE SeqsUpTo(_, _)
 SeqsUpTo(S, n) == IF n = 0 THEN {<<>>} ELSE LET T == SeqsUpTo(S, n - 1) IN T \cup {Append(t, x) : t \in {u \in T : Len(u) = n - 1}, x \in S}
 ArmLists == SeqsUpTo(ValidRe, MaxArms) \ {<<>>}
 
+\* State variables hold indices and numbers only: TLC writes queued states to disk with one byte per character, so text
+\* outside ASCII must not be part of a state (subjects and groups are looked up in the constant pool instead).
 VARIABLES arms,   \* sequence of regex-pool indices
-          subj,   \* subject string
+          si,     \* index of the subject string in the pool
           pos,    \* current position (characters)
-          hist,   \* iterations performed: [from, arm, s, e, g]
+          hist,   \* iterations performed: [from, arm, s, e]
+          gok,    \* the groups bound in every iteration so far were those of the chosen arm's match
           st      \* "run" | "done" | "err"
-vars == <<arms, subj, pos, hist, st>>
+vars == <<arms, si, pos, hist, gok, st>>
+subj == Pool.subjects[si]
 
 ArmRecs == [j \in 1..Len(arms) |-> [re |-> Pool.regexes[arms[j]].re]]
 FakeCx(mode) == [c |-> [retab |-> Pool.tabs, mode |-> mode]]
@@ -37,19 +41,20 @@ Row(j, p) == RegexTab(FakeCx("strict"), Pool.regexes[arms[j]].re, subj).tab[p + 
 
 Init ==
   /\ arms \in ArmLists
-  /\ subj \in {Pool.subjects[i] : i \in 1..Len(Pool.subjects)}
-  /\ pos = 0 /\ hist = <<>> /\ st = "run"
+  /\ si \in 1..Len(Pool.subjects)
+  /\ pos = 0 /\ hist = <<>> /\ st = "run" /\ gok = TRUE
 
 ScanIter ==
   /\ st = "run"
-  /\ IF pos >= Len(subj) THEN st' = "done" /\ UNCHANGED <<pos, hist>>
+  /\ IF pos >= Len(subj) THEN st' = "done" /\ UNCHANGED <<pos, hist, gok>>
      ELSE LET r == ScanArms(FakeCx("strict"), ArmRecs, 1, subj, pos, W0, [arm |-> 0, s |-> 0, e |-> 0, g |-> <<>>]) IN
-          IF ~r.ok THEN st' = "err" /\ UNCHANGED <<pos, hist>>
-          ELSE IF r.v.arm = 0 THEN st' = "done" /\ UNCHANGED <<pos, hist>>
-          ELSE /\ hist' = Append(hist, [from |-> pos, arm |-> r.v.arm, s |-> r.v.s, e |-> r.v.e, g |-> r.v.g])
+          IF ~r.ok THEN st' = "err" /\ UNCHANGED <<pos, hist, gok>>
+          ELSE IF r.v.arm = 0 THEN st' = "done" /\ UNCHANGED <<pos, hist, gok>>
+          ELSE /\ hist' = Append(hist, [from |-> pos, arm |-> r.v.arm, s |-> r.v.s, e |-> r.v.e])
+               /\ gok' = (gok /\ r.v.g = Row(r.v.arm, pos).g)
                /\ pos' = pos + r.v.e
                /\ st' = "run"
-  /\ UNCHANGED <<arms, subj>>
+  /\ UNCHANGED <<arms, si>>
 
 Spec == Init /\ [][ScanIter]_vars /\ WF_vars(ScanIter)
 
@@ -58,7 +63,7 @@ Start(k) == IF k = 1 THEN 0 ELSE hist[k - 1].from + hist[k - 1].e
 IsChosen(k) ==
   LET h == hist[k]  row == Row(h.arm, h.from) IN
   /\ h.from = Start(k)
-  /\ row.m /\ row.s = h.s /\ row.e = h.e /\ row.g = h.g
+  /\ row.m /\ row.s = h.s /\ row.e = h.e /\ gok
   /\ \A j \in 1..Len(arms) : Row(j, h.from).m => (h.s < Row(j, h.from).s \/ (h.s = Row(j, h.from).s /\ h.arm <= j))
 NothingLeft ==
   LET p == Start(Len(hist) + 1) IN p >= Len(subj) \/ \A j \in 1..Len(arms) : ~Row(j, p).m
@@ -68,11 +73,12 @@ LoopEqualsDefinition == st = "done" => (\A k \in 1..Len(hist) : IsChosen(k)) /\ 
 EmptyMatchIsError ==
   st = "err" => \E j \in 1..Len(arms) : Row(j, pos).m /\ Row(j, pos).s = Row(j, pos).e
 NoEmptyIteration == \A k \in 1..Len(hist) : hist[k].e > 0 /\ hist[k].s < hist[k].e
-GroupsBound == \A k \in 1..Len(hist) : Len(hist[k].g) = Pool.regexes[arms[hist[k].arm]].ngroups
+GroupsOf(k) == Row(hist[k].arm, hist[k].from).g
+GroupsBound == gok /\ \A k \in 1..Len(hist) : Len(GroupsOf(k)) = Pool.regexes[arms[hist[k].arm]].ngroups
 PositionStrictlyIncreases == [][pos' > pos \/ (pos' = pos /\ st' # "run")]_vars
 Terminates == <>(st # "run")
 
 Replay ==
   st # "run" => PrintT(<<"REPLAY", ToJson([arms |-> [j \in 1..Len(arms) |-> Pool.regexes[arms[j]].re], subj |-> subj,
-                                           status |-> st, hist |-> [k \in 1..Len(hist) |-> [arm |-> hist[k].arm, g |-> hist[k].g]]])>>)
+                                           status |-> st, hist |-> [k \in 1..Len(hist) |-> [arm |-> hist[k].arm, g |-> GroupsOf(k)]]])>>)
 =============================================================================
